@@ -53,6 +53,13 @@ func (e *Ex) failHandshake(cc *clientConn, idx int, kind string, flip bool) erro
 		return fmt.Errorf("a handshake of kind %q succeeded", kind)
 	}
 	core.Count("tls:handshake-failed-" + kind)
+	if e.conn["hscb"] == "nil" {
+		// no callback to hear from: give the proxy's connection goroutine time to reach the point where it
+		// would have called it (GenNoCallbackCase sends nothing after this item, so nothing can be misread)
+		time.Sleep(100 * time.Millisecond)
+		core.Count("tls:handshake-failed-no-callback")
+		return nil
+	}
 	// the proxy has given up on the handshake too (it reads the alert, or has sent one) ...
 	select {
 	case <-hsFailed:
